@@ -41,7 +41,9 @@ EXPLANATION = (
     ' '
     'R-C01.17 (= R-C11.2) references are rewritten in the signature object that is stored; R-C01.18 (= R-C03.17) create_index_name hands the schema editor the column names, field names only as a fallback.'
     ' '
-    'R-C01.19 = R-C06.13.')
+    'R-C01.19 = R-C06.13.'
+    ' '
+    'R-C01.20 DatabaseState.find_index compares index columns as sequences.')
 NOT_DECIDED = (
     'That the generated SQL executes and yields the same schema as creating '
     'the models from scratch, for any schema/sequence (needs SQLite and '
@@ -1249,7 +1251,35 @@ def r19_q_state_stored_independently(ctx):
     r13_q_state_stored_independently(ctx, rule_id='R-C01.19')
 
 
+def r20_indexes_identified_by_ordered_columns(ctx):
+    """An index on (a, b) and an index on (b, a) are different indexes.
+    DatabaseState.find_index() - the lookup behind every "does this index
+    already exist?" test and every DROP INDEX - must compare the recorded
+    column *sequence* with the requested one; comparing them as sets makes
+    adding the reversed index a no-op and lets a removal drop the wrong
+    one."""
+    ctx.rule('R-C01.20')
+    p = ctx.program
+    f = p.func('db.state', 'DatabaseState.find_index')
+    n = 0
+    for c in walk_no_nested(f.node):
+        if isinstance(c, ast.Compare) and 'columns' in unparse(c):
+            n += 1
+            wraps = [x for x in ast.walk(c) if isinstance(x, ast.Call) and
+                     call_name(x) in ('set', 'frozenset', 'sorted')]
+            if wraps:
+                ctx.finding(f, c, 'find_index compares index columns as %s: '
+                            'column order no longer distinguishes two '
+                            'composite indexes over the same columns' %
+                            ' '.join(unparse(c).split()),
+                            key='index-columns-unordered')
+            else:
+                ctx.ok(f, 'index columns are compared as sequences', c)
+    ctx.floor('column comparisons in DatabaseState.find_index', n, 1)
+
+
 def run(ctx):
+    r20_indexes_identified_by_ordered_columns(ctx)
     r19_q_state_stored_independently(ctx)
     r18_index_names_from_columns(ctx)
     r17_rename_rewrites_the_stored_signature(ctx)
